@@ -383,14 +383,14 @@ def simple_sub_run(prop, tier, seed, t0, engine):
     return cov, None
 
 
-def big_run(prop, tier, seed, t0, only=None):
+def big_run(prop, tier, seed, t0, only=None, ops_prefix=None):
     """Large boxed buffers in the unoptimised build; 6 processes, each announcing a step before running it.
     A process that dies (stack overflow, signal) names the step it died in."""
     build("opt0")
     parts = 6
     procs = []
     for i in range(parts):
-        cmd = [binary("opt0"), "big", "--part", f"{i}/{parts}"] + (["--only", str(only)] if only is not None else [])
+        cmd = [binary("opt0"), "big", "--part", f"{i}/{parts}"] + (["--only", str(only)] if only is not None else []) + (["--ops-prefix", ops_prefix] if ops_prefix else [])
         procs.append(subprocess.Popen(cmd, stdout=subprocess.PIPE, stderr=subprocess.STDOUT, text=True))
     evals = nontrivial = 0
     violation = None
